@@ -224,6 +224,18 @@ def ClockHyp (start wall0 : Nat) : List CycleRec → Prop
   | [] => True
   | c :: cs => start ≤ wall0 ∧ wall0 ≤ c.wall ∧ (c.t = start ∨ wall0 + 1 ≤ c.wall) ∧ Gaps (c :: cs)
 
+instance decGaps : (l : List CycleRec) → Decidable (Gaps l)
+  | [] => isTrue trivial
+  | [_] => isTrue trivial
+  | c1 :: c2 :: cs =>
+    have : Decidable (Gaps (c2 :: cs)) := decGaps (c2 :: cs)
+    inferInstanceAs (Decidable (c1.wall + 1 ≤ c2.wall ∧ Gaps (c2 :: cs)))
+
+instance decClockHyp (start wall0 : Nat) : (l : List CycleRec) → Decidable (ClockHyp start wall0 l)
+  | [] => isTrue trivial
+  | c :: cs =>
+    inferInstanceAs (Decidable (start ≤ wall0 ∧ wall0 ≤ c.wall ∧ (c.t = start ∨ wall0 + 1 ≤ c.wall) ∧ Gaps (c :: cs)))
+
 theorem not_early_of_chain {pt pw : Nat} {cs : List CycleRec} (hp : pt ≤ pw)
     (hgap : ∀ c, cs.head? = some c → pw + 1 ≤ c.wall) (hch : Chain pt cs) (hg : Gaps cs) :
     ∀ c ∈ cs, c.t ≤ c.wall := by
@@ -632,7 +644,8 @@ theorem good_step {s s' : P} (hg : Good s) (hs : Step false s s') : Good s' := b
       by_cases hj : j = i
       · subst hj; simp [upd_same]
       · have := g2 j; simp [h2] at this
-        simp [upd_other _ _ _ _ hj, hj, this]
+        simp [upd_other _ _ _ _ hj, this]
+        exact fun h => hj h.symm
     · exact g3
     · intro hw hf
       rcases g4 hw hf with h | ⟨j, hj⟩
@@ -680,7 +693,7 @@ theorem good_step {s s' : P} (hg : Good s) (hs : Step false s s') : Good s' := b
         simp [upd_same, this]
       · simp only [upd_other _ _ _ _ hj]; exact g2 j
     · intro hw _
-      left; simp [hw]
+      left; simp only at hw; simp [hw]
   | s_set_nolock i h _ => simp at h
 
 /-- **C17.** In every reachable state of the lock-level protocol — any interleaving of the loop
@@ -721,5 +734,32 @@ theorem rt_missed_signal_if_flag_set_outside_mutex : ∃ s, Sig.Reach true s ∧
   intro i
   simp [s5, s4, s3, s2, s1, s0, Sig.upd]
   split <;> simp
+
+/-! ## non-vacuity: the hypotheses are met by concrete, non-trivial runs -/
+
+/-- one node: start hook arms `start+5`; first evaluation re-arms `+7` and sets a wall-clock
+    alarm that is already due; a push, a spurious wake-up and a stop request arrive at the waits -/
+def exCfg : Cfg :=
+  { start := 1000, endT := 1060, slice := 4, wall0 := 1000, cost := 2,
+    scripts := [[[.rel 5], [.rel 7, .wallAbs 990], []]] }
+def exEvs : List WEv := [.env (.adv 2), .spur, .env (.push 7), .tmo, .tmo]
+
+example : exCfg.start < exCfg.endT := by decide
+example : Armed exCfg (initSt exCfg exEvs).1 0 1005 := ⟨_, rfl, rfl, rfl⟩
+example : Reachable exCfg exEvs (initSt exCfg exEvs).1 := .init
+/-- the run: a push cycle at 1002, the timer at exactly 1005, the re-timed alarm at 1006 (wall 1007: lagging), the
+    second timer at 1012, then idle until `end_time`; the clock hypothesis holds on it -/
+example : (cycles (run exCfg exEvs).log).map (fun c => (c.t, c.wall, c.nodes.map (·.1), c.delivered)) =
+    [(1002, 1002, [], some 7), (1005, 1005, [1], none), (1006, 1007, [1], none), (1012, 1012, [1], none)] ∧
+    (run exCfg exEvs).reason = .endReached := by decide
+example : ClockHyp exCfg.start exCfg.wall0 (cycles (run exCfg exEvs).log) := by decide
+/-- a stop request during the second wait ends the run: hypotheses of `rt_stop` are inhabited -/
+example : (run exCfg [.env (.adv 2), .env (.push 7), .env .stop]).reason = .stop ∧
+    (cycles (run exCfg [.env (.adv 2), .env (.push 7), .env .stop]).log).map (·.t) = [1002] := by decide
+example : WF NS.empty := NodeSched.wf_empty
+/-- a reachable protocol state in which the loop is blocked and a signaller holds the mutex -/
+example : ∃ s, Sig.Reach false s ∧ s.lpc = .waiting ∧ s.spc 3 = .locked :=
+  ⟨_, .step (.step (.step (.step .init (.l_lock _ rfl rfl)) (.l_read _ rfl)) (.l_block _ rfl)) (.s_lock _ 3 rfl rfl),
+   rfl, by simp [Sig.upd]⟩
 
 end HgVerif.Realtime
